@@ -345,7 +345,7 @@ var mutators = []mutator{
 	// coinbase value: exactly subsidy+fees (ok) / one satoshi more
 	{"cbvalue", []int64{0, 1, -1}, always, func(c *cand, a int64) { c.cbDelta = a }},
 	// coinbase script length 1 / 2 / 100 / 101 (BIP34 off: free-form; on: height push padded)
-	{"cblen", []int64{1, 2, 100, 101}, always, func(c *cand, a int64) {
+	{"cblen", []int64{1, 2, 3, 99, 100, 101}, always, func(c *cand, a int64) {
 		s := append([]byte{}, scriptNum(int64(c.height))...)
 		if c.bs.v.bip34H > c.height {
 			s = nil
@@ -361,14 +361,14 @@ var mutators = []mutator{
 		c.cbScript = s
 	}},
 	// timestamp = MTP (reject) / MTP+1 (ok)
-	{"timeold", []int64{0, 1}, always, func(c *cand, a int64) {
+	{"timeold", []int64{-1, 0, 1}, always, func(c *cand, a int64) {
 		c.time = c.p.mtp() + a
 		if c.bs.v.bip94 && c.height%c.bs.v.bpr == 0 {
 			c.mode = "V" // that far back also trips the BIP94 bound on a period's first block
 		}
 	}},
 	// timestamp = now+2h (ok) / now+2h+1 (reject)
-	{"timenew", []int64{7200, 7201}, always, func(c *cand, a int64) { c.time = c.bs.v.now() + a }},
+	{"timenew", []int64{7199, 7200, 7201}, always, func(c *cand, a int64) { c.time = c.bs.v.now() + a }},
 	// wrong merkle root
 	{"merkle", []int64{0}, always, func(c *cand, a int64) { c.badMerkle = true }},
 	// hash above target
@@ -431,7 +431,7 @@ var mutators = []mutator{
 		c.txs[n-1], c.txs[0] = c.txs[0], c.txs[n-1]
 	}},
 	// coinbase maturity: exactly mature (ok) / one block short
-	{"maturity", []int64{0, 1}, always, func(c *cand, a int64) {
+	{"maturity", []int64{-1, 0, 1}, always, func(c *cand, a int64) {
 		h := c.height - c.bs.v.maturity + int32(a)
 		c.txs = append(c.txs, c.pay(1, 0, c.sp(c.cbAt(h))))
 	}},
@@ -479,12 +479,12 @@ var mutators = []mutator{
 		c.txs = append(c.txs, c.bs.b.mkTx(1, 0, []spend{c.sp(c.bs.cbOp(2, kTrue))}, nil))
 	}},
 	// non-final transaction: lock time = height (non-final) / height-1 (final); by time: = cutoff / cutoff-1
-	{"locktime", []int64{0, -1, 10, 9}, always, func(c *cand, a int64) {
+	{"locktime", []int64{0, -1, 1, 10, 9, 11}, always, func(c *cand, a int64) {
 		s := c.sp(c.bs.cbOp(2, kTrue))
 		s.seq = 0xfffffffe
 		var lt int64
 		switch a {
-		case 0, -1:
+		case 0, -1, 1:
 			lt = int64(c.height) + a
 		default:
 			cut := c.time
@@ -495,12 +495,36 @@ var mutators = []mutator{
 		}
 		c.txs = append(c.txs, c.pay(1, uint32(lt), s))
 	}},
+	// the lock-time type switches at 500 000 000: 499 999 999 is a (far-away) height, 500 000 000 a time in 1985
+	{"ltthreshold", []int64{499999999, 500000000, 500000001}, always, func(c *cand, a int64) {
+		s := c.sp(c.bs.cbOp(2, kTrue))
+		s.seq = 0xfffffffe
+		c.txs = append(c.txs, c.pay(1, uint32(a), s))
+	}},
+	// sequence-number bits of BIP68: disable flag (bit 31), a stray bit 16 above the mask, all mask bits set
+	{"seqbits", []int64{0, 1, 2, 3, 4}, always, func(c *cand, a int64) {
+		s := c.sp(c.bs.fanOp(fanTrue2))
+		age := uint32(c.height - c.bs.fanH)
+		switch a {
+		case 0:
+			s.seq = wire.SequenceLockTimeDisabled | (age + 5) // disabled: not a lock
+		case 1:
+			s.seq = 0x00010000 | (age + 1) // bit 16 is outside the mask: the lock is age+1, unmet
+		case 2:
+			s.seq = 0x00010000 // masked value 0: met
+		case 3:
+			s.seq = 0x7fbfffff // every bit but "disable" and "type": lock of 65535 blocks, unmet
+		case 4:
+			s.seq = 0x7fffffff // every bit but "disable": a time lock of 65535*512 s, unmet
+		}
+		c.txs = append(c.txs, c.pay(2, 0, s))
+	}},
 	// non-final lock time but every sequence is final: accepted
 	{"locktimefinalseq", []int64{0}, always, func(c *cand, a int64) {
 		c.txs = append(c.txs, c.pay(1, uint32(c.height)+100, c.sp(c.bs.cbOp(2, kTrue))))
 	}},
 	// BIP68 height lock on the fan-out output: met exactly / unmet by one (inert when CSV is off or tx version 1)
-	{"bip68h", []int64{0, 1, 101}, always, func(c *cand, a int64) {
+	{"bip68h", []int64{-1, 0, 1, 101}, always, func(c *cand, a int64) {
 		s := c.sp(c.bs.fanOp(fanTrue2))
 		age := c.height - c.bs.fanH // blocks since confirmation
 		ver := int32(2)
@@ -511,7 +535,7 @@ var mutators = []mutator{
 		c.txs = append(c.txs, c.pay(ver, 0, s))
 	}},
 	// BIP68 time lock: 512-second units against the MTPs
-	{"bip68t", []int64{0, 1}, always, func(c *cand, a int64) {
+	{"bip68t", []int64{-1, 0, 1}, always, func(c *cand, a int64) {
 		s := c.sp(c.bs.fanOp(fanTrue2))
 		have := c.p.mtp() - c.p.mtpAt(c.bs.fanH-1)
 		// lock of u units is met iff originMTP + u*512 - 1 < mtp  iff  u*512 <= have
@@ -555,7 +579,7 @@ var mutators = []mutator{
 		c.commit = []string{"none", "mismatch", "badnonce", "force", "twononce"}[a]
 	}},
 	// BIP16 switch time: a bad P2SH redeem script in a block timed one second before / exactly at the switch
-	{"bip16time", []int64{-1, 0}, func(v variant, h int32) bool { return v.early }, func(c *cand, a int64) {
+	{"bip16time", []int64{-1, 0, 1}, func(v variant, h int32) bool { return v.early }, func(c *cand, a int64) {
 		c.time = bip16Switch + a
 		s := c.sp(c.bs.cbOp(2, kP2SH))
 		s.bad = "sig"
@@ -570,12 +594,12 @@ var mutators = []mutator{
 		c.txs = append(c.txs, c.pay(1, 0, s))
 	}},
 	// legacy sigops: total cost exactly 80000 / 80004 through bare CHECKMULTISIG outputs
-	{"sigops", []int64{80000, 80001, 80004}, always, func(c *cand, a int64) { c.tuneSigops(a) }},
+	{"sigops", []int64{79999, 80000, 80001, 80004}, always, func(c *cand, a int64) { c.tuneSigops(a) }},
 	// block weight exactly 4000000 / 4000001 (segwit) or stripped size 1000000 / 1000001
-	{"weight", []int64{4000000, 4000001}, segOn, func(c *cand, a int64) { c.tuneWeight(a) }},
-	{"basesize", []int64{1000000, 1000001}, segOff, func(c *cand, a int64) { c.tuneBase(a) }},
+	{"weight", []int64{3999999, 4000000, 4000001}, segOn, func(c *cand, a int64) { c.tuneWeight(a) }},
+	{"basesize", []int64{999999, 1000000, 1000001}, segOff, func(c *cand, a int64) { c.tuneBase(a) }},
 	// BIP94 time warp: first block of a period 600 s / 601 s before its parent
-	{"timewarp", []int64{600, 601}, func(v variant, h int32) bool { return v.bip94 && h%v.bpr == 0 }, func(c *cand, a int64) {
+	{"timewarp", []int64{599, 600, 601}, func(v variant, h int32) bool { return v.bip94 && h%v.bpr == 0 }, func(c *cand, a int64) {
 		c.time = c.p.times[len(c.p.times)-1] - a
 	}},
 	// BIP30: coinbase identical to an earlier, unspent one
